@@ -36,6 +36,19 @@ type Program struct {
 	storeIdx map[types.Object][]StoreSite
 	readIdx  map[types.Object][]StoreSite
 	NFuncs   int
+
+	// NoInline: functions the rules of the running property name explicitly (anchors, targets);
+	// their call sites are what rules look for, so they are never replaced by their bodies.
+	NoInline      map[*types.Func]bool
+	NoInlineNames map[string]bool
+	// DisableInline switches the interprocedural view off (anchor-collection pass, debugging).
+	DisableInline bool
+}
+
+// ResetFns drops every cached analysis view (after the anchor-collection pass).
+func (p *Program) ResetFns() {
+	p.fnCache = map[*ast.BlockStmt]*Fn{}
+	p.wrapMemo = map[wrapKey]bool{}
 }
 
 // FuncSrc is the source declaration of a function or method.
@@ -190,6 +203,12 @@ func (p *Program) Obj(spec string) types.Object {
 			return nil
 		}
 		obj = o
+	}
+	if fn, ok := obj.(*types.Func); ok {
+		if p.NoInline == nil {
+			p.NoInline = map[*types.Func]bool{}
+		}
+		p.NoInline[fn] = true
 	}
 	return obj
 }
